@@ -2,8 +2,9 @@
 Require Import ExtrOcamlBasic.
 From Coq Require Import NArith List String.
 From Snap.Raid Require Import GenModel.
-From Snap.Simd Require Import SimdDefs SimdSem RecDefs RecSem RecSimdModel.
+From Snap.Simd Require Import SimdDefs SimdSem RecDefs RecSem RecCheck RecSimdModel.
 From Snap.Gen Require Import X86RecProgs.
 Extraction Language OCaml.
 Set Extraction Optimize.
-Extraction "../ocaml/C03simd/c03simd_ext.ml" RecSimdModel.simd_raid_rec_blocks X86RecProgs.all_rec_progs.
+Extraction "../ocaml/C03simd/c03simd_ext.ml" RecSimdModel.simd_raid_rec_blocks RecCheck.rchecker_opt RecCheck.rcheck_n RecCheck.ranalyse
+  X86RecProgs.all_rec_progs.
